@@ -252,10 +252,14 @@ def run (cfg : SCfg) : SState α → List (Op α) → SState α × List SEv
 
 /-- what the sizing functions must satisfy for the container to work (proved for `cnst`; for `sqrt` it is
     the content of C16): the capacity of the segments needed for `n` items is at least `n`, capacity is
-    monotone in the segment count, and an index below the capacity lies in an existing segment -/
+    monotone in the segment count, and an index is below the capacity exactly when it lies in an existing segment -/
 structure Layout.Ok (lay : Layout) : Prop where
   cap_segsFor : ∀ n, n ≤ lay.index (lay.segsFor n) 0
   cap_mono : ∀ a b, a ≤ b → lay.index a 0 ≤ lay.index b 0
   seg_lt : ∀ n k, n < lay.index k 0 → (lay.segItem n).1 < k
+  /-- … and only then -/
+  lt_of_seg : ∀ n k, (lay.segItem n).1 < k → n < lay.index k 0
+  /-- no segment is empty -/
+  cap_strict : ∀ k, lay.index k 0 < lay.index (k + 1) 0
 
 end Momo.Arr.Seg
